@@ -1,5 +1,5 @@
 /-
-The repair docs/fixes/C13-1.patch ("all removals before all sets" in `AdjustEnv`,
+The repair /repo 6eaf34c, formerly docs/fixes/C13-1.patch ("all removals before all sets" in `AdjustEnv`,
 `AdjustDevices`, `AdjustMounts`) is the code before the repair run on the stably reordered
 entry list `removalsFirst L`.  Hence it changes nothing for adjustments that already list
 their removals first — in particular for everything the collector in `result.go` produces
